@@ -828,6 +828,10 @@ func t2c16Tables(c *Ctx) {
 			c.Check(d == "", rule, key, pos, t2dotted(got)+" = embedded RFC 3279 value (crypto/x509 of this Go version has no "+v.Name()+")", v.Name()+": "+d+"; oracle: embedded RFC 3279 value")
 			continue
 		}
+		if t2dotted(got) == t2yubicoSerialOID {
+			c.Ok(rule, key, pos, t2dotted(got)+" = Yubico PIV serial-number extension (embedded reference; R4.alphabet decides where it is compared)")
+			continue
+		}
 		c.Und(rule, key, pos, "crypto/x509 has no variable "+v.Name()+" and the checker embeds no reference value for it ("+t2dotted(got)+"): review and add it to the legacy table")
 	}
 	c.Floor(rule, nOID, 30, "OID variables compared")
@@ -1345,6 +1349,14 @@ func t2c16Alphabet(c *Ctx) {
 				return true
 			}
 			b, ok := idx.(*ast.BinaryExpr)
+			if ok && b.Op == token.SHR {
+				// an 8-bit value shifted right by at least four is below 16
+				bt, isB := p.TypesInfo.TypeOf(b.X).Underlying().(*types.Basic)
+				if k, _, isK := t2constInt(p, b.Y); isK && k >= 4 && isB && bt.Kind() == types.Uint8 {
+					c.Ok(rule, key, w.Pos(ix.Pos()), fmt.Sprintf("index has the form (8-bit value) >> %d", k))
+					return true
+				}
+			}
 			if ok && b.Op == token.AND {
 				mx, _, okx := t2constInt(p, b.X)
 				my, _, oky := t2constInt(p, b.Y)
@@ -1387,6 +1399,7 @@ func t2c16Alphabet(c *Ctx) {
 	// the extension OID compared in ModHex (or in a helper it calls): BinOp ==/!= of (asn1.ObjectIdentifier).String()
 	// with a string constant, on the compiled form
 	nOID := 0
+	var oidTests []Lit // the extension-id tests, with the outcome that means "this is the serial-number extension"
 	if mhf := w.Func("attestation/yubiattest", "ModHex"); mhf != nil {
 		for _, tf := range w.Tree(mhf) {
 			for _, blk := range tf.Blocks {
@@ -1406,12 +1419,66 @@ func t2c16Alphabet(c *Ctx) {
 							c.Und(rule, "ModHex|extension OID literal", w.Pos(b.Pos()), "the OID's String() is compared with a non-constant")
 							continue
 						}
-						c.Check(s == t2yubicoSerialOID && b.Op == token.EQL, rule, "ModHex|extension OID literal", w.Pos(b.Pos()), "compares with \""+s+"\" (Yubico PIV serial-number extension)",
+						oidTests = append(oidTests, Lit{V: b, Pol: b.Op == token.EQL})
+						c.Check(s == t2yubicoSerialOID, rule, "ModHex|extension OID literal", w.Pos(b.Pos()), "compares with \""+s+"\" (Yubico PIV serial-number extension)",
 							fmt.Sprintf("ModHex compares the extension id with %q (operator %s), want == %q", s, b.Op, t2yubicoSerialOID))
 					}
 				}
 			}
 		}
+	}
+	// the other way of writing it: ext.Id.Equal(<frozen package-level OID>)
+	if mhf := w.Func("attestation/yubiattest", "ModHex"); mhf != nil && nOID == 0 {
+		for _, call := range w.callsToDeep(mhf, "(encoding/asn1.ObjectIdentifier).Equal") {
+			cv, ok := call.(*ssa.Call)
+			if !ok || len(cv.Call.Args) != 2 {
+				continue
+			}
+			for _, pair := range [][2]ssa.Value{{cv.Call.Args[0], cv.Call.Args[1]}, {cv.Call.Args[1], cv.Call.Args[0]}} {
+				ld, ok := strip(pair[1]).(*ssa.UnOp)
+				if !ok {
+					continue
+				}
+				g, ok := ld.X.(*ssa.Global)
+				if !ok || !strings.HasSuffix(w.Expr(pair[0]), ".Id") {
+					continue
+				}
+				nOID++
+				oidTests = append(oidTests, Lit{V: cv, Pol: true})
+				val, frozen := w.globalOID(g)
+				if !frozen {
+					c.Und(rule, "ModHex|extension OID literal", w.Pos(cv.Pos()), "the extension id is compared with "+g.Name()+", which is not a package-level literal that is never written")
+					continue
+				}
+				c.Check(val == t2yubicoSerialOID, rule, "ModHex|extension OID literal", w.Pos(cv.Pos()), "compares with "+g.Name()+" = "+val+" (Yubico PIV serial-number extension)",
+					fmt.Sprintf("ModHex compares the extension id with %s = %s, want %s", g.Name(), val, t2yubicoSerialOID))
+			}
+		}
+	}
+	// the serial bytes are taken from an extension only under the positive outcome of that test
+	if mhf := w.Func("attestation/yubiattest", "ModHex"); mhf != nil && len(oidTests) > 0 {
+		f := w.Facts(mhf)
+		nTake := 0
+		for _, tf := range w.Tree(mhf) {
+			for _, blk := range tf.Blocks {
+				for _, ins := range blk.Instrs {
+					sl, ok := ins.(*ssa.Slice)
+					if !ok || !strings.HasSuffix(w.Expr(sl.X), ".Value") || !strings.Contains(w.Expr(sl.X), "Extensions") {
+						continue
+					}
+					nTake++
+					gated := false
+					for _, t := range oidTests {
+						if f.At(blk)[t] {
+							gated = true
+						}
+					}
+					c.Check(gated, rule, "ModHex|serial taken only from the extension with that id", w.Pos(sl.Pos()), "must-fact: the extension id test succeeded",
+						"the serial bytes are taken from an extension whose id was not found equal to the Yubico serial-number OID")
+				}
+			}
+		}
+		c.Floor(rule, nTake, 1, "extension value taken as the serial")
 	}
 	if nOID == 0 {
 		c.Unresolved(rule, "comparison `ext.Id.String() == <literal>` in ModHex")
